@@ -2,3 +2,11 @@ chk('C09', 'proof',
     'Every listed law of the spatial algebra is a machine-discharged obligation over the jaxprs of the real brax.math / brax.base / brax.com functions, for ALL real inputs (z3 QF_NRA, or exact normal form modulo the unit-sphere relations); stronger than the lattice evaluation in the property text.',
     'floats as exact reals; jnp.linalg.det cut with an assumed contract; atan2/asin inverse axioms for the Euler chart; jax tracer; interpreter primitive semantics self-validated against JAX on sampled inputs',
     'contract-based deductive verification: VC generation from jaxprs of the real functions, discharged by z3 / exact polynomial normal form', '7 C09')
+chk('C19', 'proof',
+    'compute_gae traced at every (T,B) in the quick/thorough range and proved equal to the explicit defining sum for ALL real inputs (all masks, lambda, discount); the scan body is verified with a symbolic carry (T-generic induction step); the jaxpr of jax.grad through the outputs is identically zero.',
+    'floats as exact reals; T in 1..12 and B in {1,2} enumerated, T-generic only through the scan-body rule plus the unfolding lemma; jax tracer and jax.grad trusted',
+    'contract-based deductive verification: VC generation from the jaxpr of compute_gae, z3 (polynomial identities), exact normal form for the gradient', '7 C19')
+chk('C18', 'proof',
+    'The batched Welford update is proved to preserve the invariant (count, mean, summed_variance) = f(ghost sums S0,S1,S2) for ALL data, weights and prior states at each listed batch shape, as an exact rational-function identity; std clipping, normalize/denormalize inverse and integer-leaf passthrough are separate obligations; batching independence and weight = repetition are also proved directly.',
+    'floats as exact reals (accumulator round-off not covered); listed batch shapes; population statistics from ghost sums is a paper lemma; pmap_axis_name=None',
+    'contract-based deductive verification: inductive invariant over ghost state, exact rational-function normal form + z3', '7 C18')
